@@ -130,6 +130,7 @@ def _build_and_compare(ctx, script, symbols, n_eq, rng, settings_list, case):
             ctx.evaluation((script, kw, conv_name, case.get('symbol_order')), nontrivial=n_eq > 0, sample=c2)
             variants = {}
             texts = {}
+            symbols_image = list(symbols)
             try:
                 for typed in (True, False):
                     args = dict(kw, with_type_hints=typed)
@@ -167,6 +168,9 @@ def _build_and_compare(ctx, script, symbols, n_eq, rng, settings_list, case):
                 ctx.violation('build-raises', f'building with {kw}, converter={conv_name} raised {type(e).__name__}: {str(e)[:300]}', c2)
                 return
             ctx.count('variants_built', len(variants))
+            if list(symbols) != symbols_image:
+                ctx.violation('argument-mutated', f'building changed the caller\'s symbol list: {len(symbols_image)} symbols before, {len(symbols)} after (or reordered / replaced)', c2)
+                return
             # every equation-carrying symbol (identical verbatim statements included) must appear in the definition
             if conv is None:
                 want_blocks = [s.code for s in symbols if s.type.name in ('ENDOGENOUS', 'VERBATIM') and s.equation is not None and s.code is not None]
